@@ -28,6 +28,10 @@ def gen_feed(rng):
     if r < 0.55:
         m, t = rng.choice([(0, 0), (1, 1), (2, 1), (1, 2), (2, 2), (3, 0), (0, 3)])
         return f"F:s:{m}:{t}"
+    if r < 0.6:
+        return "F:u"
+    if r < 0.65:
+        return rng.choice(["F:o:86", "F:o:0"])
     if r < 0.8:
         return "F:f"
     return "F:b" + rng.choice(["", "~len", "~sender", "~kind"])
@@ -80,7 +84,8 @@ def is_gated(h):
 def run_impl(h, stop_when_closed=True, after_event=None):
     """execute a history on the implementation; returns (segments, per-event extras, runner info)"""
     cfg, rc, script, events = h
-    r = connrun.Runner(cfg, rc, script)
+    kind = events[0].split(":")[1] if events and events[0].startswith("K:") else "x"
+    r = connrun.Runner(cfg, rc, script, kind)
     segs, extras = [], []
     error = None
     try:
